@@ -64,3 +64,17 @@ Example lines_2 : lines [97; 98] 3 = GPanic. Proof. run. Qed.
 Example greet_1 : greet [98; 111; 98] = GOk [104; 105; 32; 98; 111; 98]. Proof. run. Qed.
 (* anyTrue [true false true] = 5 : []bool *)
 Example anyTrue_1 : anyTrue [true; false; true] = GOk 5. Proof. run. Qed.
+(* mach (go test transcript): true true true [10 11] 3 1 [{5 6}] 5000
+   external function fields (clock = environment read, emit / hook = logged calls), []struct, == on
+   structs, time.Time as an instant, ignored logging call, counter behind a pointer field *)
+Definition m0 : mach := mk_mach 1000 true true (Some (mk_ctr 0)) 900 [mk_pt 1 2] [] (ErrNew "E") [].
+Definition m1 : mach := mk_mach 1000 true true (Some (mk_ctr 0)) 1000 [mk_pt 1 2; mk_pt 3 4] [10] (ErrNew "E") [[115]].
+Definition m2 : mach := mk_mach 1000 true true (Some (mk_ctr 1)) 1000 [mk_pt 1 2; mk_pt 3 4] [10] (ErrNew "E") [[115]; [115]].
+Definition m3 : mach := mk_mach 5000 true true (Some (mk_ctr 1)) 5000 [mk_pt 5 6] [10; 11] (ErrNew "E") [[115]; [115]; [115]].
+Example mach_1 : mach_step (Some m0) (mk_pt 3 4) 200 = GOk (Some m1, ErrNew "E"). Proof. run. Qed.
+Example mach_2 : mach_step (Some m1) (mk_pt 3 4) 200 = GOk (Some m2, ErrNil). Proof. run. Qed.
+Example mach_3 : mach_step (Some (set_mach_clock m2 5000)) (mk_pt 5 6) 200 = GOk (Some m3, ErrNew "E"). Proof. run. Qed.
+(* a nil emit callback panics when called; a nil hook is skipped *)
+Example mach_4 : mach_step (Some (set_mach_emit m0 false)) (mk_pt 3 4) 200 = GPanic. Proof. run. Qed.
+Example mach_5 : mach_step (Some (set_mach_hook m0 false)) (mk_pt 3 4) 200
+  = GOk (Some (set_mach_hook_log (set_mach_hook m1 false) []), ErrNew "E"). Proof. run. Qed.
